@@ -3,8 +3,11 @@
 P: coarsening of a component level never goes below lmin (C03 contract); global trapezoidal weights are the exact integrals of the
 (modified) hat functions for every grid (C09 contracts + lemmas: piecewise-linear interpolant integrated exactly, linear functions exact).
 The deciding part is the bounded layer B."""
-from contracts import C03, C09
+from contracts import C03, C08, C09
 
-CONTRACTS = [C03.Modify(lmin_is_property=True), C09.ComputeWeights(), C09.ComputeWeightsModified(), C09.ComputeWeightsModified3(), C09.ComputeWeightsModified4()]
-LEMMAS = list(C09.LEMMAS)
-ASSUMPTIONS = C03.ASSUMPTIONS + C09.ASSUMPTIONS
+# extend-split / cell strategies integrate every area with the LOCAL trapezoidal grid with boundary points: its 1-D rule integrates 1 and x exactly for
+# every level and sub-box (C08 contracts + induction lemmas); tensor products of exact 1-D rules are exact on multilinear functions (not mechanised)
+CONTRACTS = [C03.Modify(lmin_is_property=True), C09.ComputeWeights(), C09.ComputeWeightsModified(), C09.ComputeWeightsModified3(), C09.ComputeWeightsModified4(),
+             C08.LevelToNumPoints(), C08.GetPointsAndWeights(), C08.SetCurrentArea(), C08.WeightCompositeTrapezoidal(), C08.Get1dWeight()]
+LEMMAS = list(C09.LEMMAS) + list(C08.LEMMAS)
+ASSUMPTIONS = C03.ASSUMPTIONS + C09.ASSUMPTIONS + C08.ASSUMPTIONS + ["tensor products of 1-D rules that are exact for 1 and x are exact for multilinear functions (textbook; not mechanised)"]
